@@ -6,7 +6,7 @@
    distribution), every candidate batch, both [only_baked] settings, and every complete interleaving
    [sigma] of the caller's steps (DCopy, DEnq, DRecvOk, DRecvErr) with the workers' steps (DExec k). *)
 From Coq Require Import List NArith Bool Arith Permutation.
-From Similari Require Import Model.DistProto Proofs.DistProtoProofs.
+From Similari Require Import Model.DistProto Proofs.DistProtoProofs Model.DistProtoFine Proofs.DistProtoFineProofs.
 Import ListNotations.
 
 Section C10.
@@ -131,6 +131,52 @@ Section C10.
       exists l st', FIRE cls ob st l = Some st'.
   Proof. exact (owned_no_deadlock_lemma track OBS MV tid compatible baked observations metric postprocess). Qed.
 End C10.
+
+(* ---------------------------------------------------------------------------------------------------------
+   Fine-grained model (Model/DistProtoFine.v): a worker's command is TWO steps, the send of the ok chunk and the
+   send of the err chunk, with the shard lock released and arbitrary steps of the caller and of the other workers
+   in between (as in handle_store_ops). The results are the same. *)
+Section C10_Fine.
+  Variable track : Type.
+  Variable OBS : Type.
+  Variable MV : Type.
+  Variable tid : track -> N.
+  Variable compatible : track -> track -> bool.
+  Variable baked : track -> status.
+  Variable observations : track -> N -> option (list OBS).
+  Variable metric : N -> track -> OBS -> track -> OBS -> option MV.
+  Variable postprocess : track -> list (res MV) -> list (res MV).
+
+  Notation FRUN := (frun track OBS MV tid compatible baked observations metric postprocess).
+  Notation FFIRE := (ffire track OBS MV tid compatible baked observations metric postprocess).
+  Notation OKSPEC := (ok_spec track OBS MV tid compatible baked observations metric postprocess).
+  Notation ERRSPEC := (err_spec track OBS tid compatible baked observations).
+
+  (* exactness, chunk counts, nothing left in a channel, no worker left between its two sends, store unchanged *)
+  Theorem query_exact_fine_grained :
+    forall cls ob (sh : list (list track)) (cands : list track) sigma st,
+      FRUN cls ob (finit_foreign track MV sh cands) sigma = Some st -> ffinal track MV st = true ->
+      Permutation (concat (got_ok (fb st))) (OKSPEC (concat sh) cands cls ob) /\
+      Permutation (concat (got_err (fb st))) (ERRSPEC (concat sh) cands cls ob) /\
+      shards (fb st) = sh /\
+      length (got_ok (fb st)) = length sh * length cands /\ length (got_err (fb st)) = length sh * length cands /\
+      ok_chan (fb st) = [] /\ err_chan (fb st) = [] /\ Forall (fun o => o = None) (half st).
+  Proof. exact (query_exact_fine_lemma track OBS MV tid compatible baked observations metric postprocess). Qed.
+
+  Theorem query_no_deadlock_fine_grained :
+    forall cls ob sh cands sigma st,
+      FRUN cls ob (finit_foreign track MV sh cands) sigma = Some st -> ffinal track MV st = false ->
+      exists l st', FFIRE cls ob st l = Some st'.
+  Proof. exact (no_deadlock_fine_lemma track OBS MV tid compatible baked observations metric postprocess). Qed.
+
+  Theorem owned_query_exact_fine_grained :
+    forall cls ob sh ids sigma st,
+      FRUN cls ob (finit_owned track MV sh ids) sigma = Some st -> ffinal track MV st = true ->
+      Permutation (concat (got_ok (fb st))) (OKSPEC (concat sh) (owned_cands track tid sh ids) cls ob) /\
+      Permutation (concat (got_err (fb st))) (ERRSPEC (concat sh) (owned_cands track tid sh ids) cls ob) /\
+      shards (fb st) = sh.
+  Proof. exact (owned_query_exact_fine_lemma track OBS MV tid compatible baked observations metric postprocess). Qed.
+End C10_Fine.
 
 (* The shape owned_track_distances had before the fix (fetch out / enqueue / re-add) violates the property:
    there is a schedule on which the queried tracks are missing from one another's results, and the result
